@@ -7,58 +7,73 @@ import re
 import subprocess
 import sys
 
-sys.path.insert(0, os.path.dirname(__file__))
+sys.path.insert(0, os.path.dirname(os.path.abspath(__file__)))
 import verusx
 from rustscan import mask_source, match_brace, find_fn_body_open
 
-unit = sys.argv[1]
-repo = sys.argv[2] if len(sys.argv) > 2 else "/repo"
-out = f"/verif/build/{unit}.rs"
-verusx.build_unit(repo, f"/verif/contracts/{unit}.verus.rs", out)
-src = open(out).read()
-mask = mask_source(src)
-ins = []
-for m in re.finditer(r"\bfn\s+([A-Za-z_][A-Za-z0-9_]*)", mask):
-    p = mask.find("(", m.end())
-    if p < 0:
-        continue
-    try:
-        pc = match_brace(mask, p)
-    except Exception:
-        continue
-    k = find_fn_body_open(mask, pc + 1)
-    if k < 0 or mask[k] == ";":
-        continue
-    header = mask[m.start():k]
-    if "requires" not in header:
-        continue
-    ls = src.rfind("\n", 0, m.start()) + 1
-    prefix = src[ls:m.start()]
-    if "spec" in prefix:
-        continue
-    attrs = src[max(0, ls - 300):ls].rstrip().split("\n")[-1]
-    if "external_body" in attrs:
-        continue
-    ins.append((k + 1, m.group(1), "proof" in prefix))
-names = []
-for pos, name, is_proof in sorted(ins, reverse=True):
-    src = src[:pos] + f"\n/*VAC {name}*/ " + ("assert(false);" if is_proof else "proof { assert(false); }") + "\n" + src[pos:]
-    names.append(name)
-tmp = f"/var/tmp/vac_{unit}.rs"
-open(tmp, "w").write(src)
-p = subprocess.run(["verus", tmp, "--multiple-errors", "200"], capture_output=True, text=True)
-txt = p.stdout + p.stderr
-failed = set(re.findall(r"/\*VAC (\w+)\*/", txt))
-lines = src.split("\n")
-# an error span shows the source line: collect VAC markers on reported lines
-for mm in re.finditer(r"-->\s*%s:(\d+):" % re.escape(tmp), txt):
-    ln = int(mm.group(1))
-    mk = re.search(r"/\*VAC (\w+)\*/", lines[ln - 1])
-    if mk:
-        failed.add(mk.group(1))
-vac = [n for n in names if n not in failed]
-os.remove(tmp)
-print(f"{unit}: {len(names)} functions with preconditions probed; vacuous: {vac if vac else 'none'}")
-if "error: " in txt and not re.search(r"verification results", txt):
-    print("  (verus did not complete:", [l for l in txt.split('\n') if l.startswith('error')][:3], ")")
-sys.exit(1 if vac else 0)
+HERE = os.path.dirname(os.path.dirname(os.path.abspath(__file__)))
+
+
+def probe(unit: str, repo: str = "/repo", build: str = None):
+    """-> dict(probed=[names], vacuous=[names], completed=bool)"""
+    build = build or os.path.join(HERE, "build")
+    os.makedirs(build, exist_ok=True)
+    out = os.path.join(build, f"{unit}_vacsrc.rs")
+    verusx.build_unit(repo, os.path.join(HERE, "contracts", f"{unit}.verus.rs"), out)
+    src = open(out).read()
+    mask = mask_source(src)
+    ins = []
+    for m in re.finditer(r"\bfn\s+([A-Za-z_][A-Za-z0-9_]*)", mask):
+        p = mask.find("(", m.end())
+        if p < 0:
+            continue
+        try:
+            pc = match_brace(mask, p)
+        except Exception:
+            continue
+        k = find_fn_body_open(mask, pc + 1)
+        if k < 0 or mask[k] == ";":
+            continue
+        header = mask[m.start():k]
+        if "requires" not in header:
+            continue
+        ls = src.rfind("\n", 0, m.start()) + 1
+        prefix = src[ls:m.start()]
+        if "spec" in prefix:
+            continue
+        attrs = src[max(0, ls - 300):ls].rstrip().split("\n")[-1]
+        if "external_body" in attrs:
+            continue
+        ins.append((k + 1, m.group(1), "proof" in prefix))
+    names = []
+    for pos, name, is_proof in sorted(ins, reverse=True):
+        src = src[:pos] + f"\n/*VAC {name}*/ " + ("assert(false);" if is_proof else "proof { assert(false); }") + "\n" + src[pos:]
+        names.append(name)
+    tmp = os.path.join(build, f"{unit}_vac.rs")
+    open(tmp, "w").write(src)
+    p = subprocess.run(["verus", tmp, "--multiple-errors", "400"], capture_output=True, text=True, cwd=build)
+    txt = p.stdout + p.stderr
+    lines = src.split("\n")
+    failed = set()
+    for mm in re.finditer(r"-->\s*%s:(\d+):" % re.escape(tmp), txt):
+        ln = int(mm.group(1))
+        mk = re.search(r"/\*VAC (\w+)\*/", lines[ln - 1])
+        if mk:
+            failed.add(mk.group(1))
+    completed = bool(re.search(r"verification results", txt))
+    for f in (tmp, out):
+        try:
+            os.remove(f)
+        except OSError:
+            pass
+    return dict(probed=names, vacuous=[n for n in names if n not in failed], completed=completed,
+                errors=[l for l in txt.split("\n") if l.startswith("error")][:3] if not completed else [])
+
+
+if __name__ == "__main__":
+    unit = sys.argv[1]
+    r = probe(unit, sys.argv[2] if len(sys.argv) > 2 else "/repo")
+    print(f"{unit}: {len(r['probed'])} functions with preconditions probed; vacuous: {r['vacuous'] if r['vacuous'] else 'none'}")
+    if not r["completed"]:
+        print("  (verus did not complete:", r["errors"], ")")
+    sys.exit(1 if r["vacuous"] or not r["completed"] else 0)
